@@ -232,6 +232,21 @@ Fixpoint c10_pop_finish_n (n : nat) (en : c10_env) (name : nat) (w : c10_world) 
   | S k => c10_bind (c10_pop_finish en name w) (fun _ w1 => c10_pop_finish_n k en name w1)
   end.
 
+(* writeStandard's pp_md5 goes out of scope when the function returns AND when an exception (Pl_StdioFile::write's)
+   unwinds through it: the destructor runs in both cases; an exception in flight keeps propagating unless the
+   destructor itself terminates the process *)
+Definition c10_with_pops (en : c10_env) (name : nat) (r : c10_res unit) : c10_res unit :=
+  match r with
+  | ROk _ w => c10_pop_finish_n (en_md5_pops en) en name w
+  | RExc e w =>
+    match c10_pop_finish_n (en_md5_pops en) en name w with
+    | ROk _ w' => RExc e w'
+    | RExc _ w' => RExc e w'
+    | RDead w' => RDead w'
+    end
+  | RDead w => RDead w
+  end.
+
 (* a destructor that closes the stream if it is still open, result ignored; an exception in flight
    keeps propagating; a kill inside the destructor is a kill *)
 Definition c10_dtor_close {A} (en : c10_env) (name : nat) (r : c10_res A) : c10_res A :=
@@ -250,11 +265,10 @@ Definition c10_writer_file (en : c10_env) (name : nat) (chunks : list (list N)) 
   c10_bind (c10_fopen en name w) (fun ok w1 =>
     if negb ok then RExc (Exn EcOpen name) w1 else
     c10_dtor_close en name
-      (c10_bind (c10_pl_write_chunks en name chunks w1) (fun _ w1' =>
-       c10_bind (c10_pop_finish_n (en_md5_pops en) en name w1') (fun _ w2 =>
+      (c10_bind (c10_with_pops en name (c10_pl_write_chunks en name chunks w1)) (fun _ w2 =>
        c10_bind (c10_pl_finish en name w2) (fun _ w3 =>
        c10_bind (c10_fclose en name w3) (fun okc w4 =>
-         if ck_wclose (en_ck en) && negb okc then RExc (Exn EcClose name) w4 else ROk tt w4)))))).
+         if ck_wclose (en_ck en) && negb okc then RExc (Exn EcClose name) w4 else ROk tt w4))))).
 
 (* ---- std::cout through Pl_OStream.  name 0 is stdout. *)
 Definition c10_stdout := 0.
